@@ -86,12 +86,14 @@ func obss(s string) { obsLog = append(obsLog, obsEnt{s: s, str: true}) }
 
 `
 
+func c01Suffix(i int) string { return fmt.Sprintf("_%d", i) }
+
 func c01FuncsSource(progs []c01Prog) string {
 	var b strings.Builder
 	b.WriteString(c01Prelude)
 	for i, p := range progs {
 		fmt.Fprintf(&b, "// ---- program %d: %s/%d %s\n", i, p.Family, p.Index, p.Desc)
-		b.WriteString(p.Text(fmt.Sprint(i)))
+		b.WriteString(p.Text(c01Suffix(i)))
 		b.WriteString("\n")
 	}
 	return b.String()
@@ -264,13 +266,13 @@ func c01MainSource(progs []c01Prog, nres []int) string {
 			fs = append(fs, fmt.Sprintf("fmtr(r%d)", k))
 		}
 		if len(rs) == 0 {
-			fmt.Fprintf(&b, "\tf%d(a, b)\n\treturn \"ok \"\n}\n", i)
+			fmt.Fprintf(&b, "\tf%s(a, b)\n\treturn \"ok \"\n}\n", c01Suffix(i))
 		} else {
-			fmt.Fprintf(&b, "\t%s := f%d(a, b)\n\treturn \"ok \" + %s\n}\n", strings.Join(rs, ", "), i, strings.Join(fs, " + \",\" + "))
+			fmt.Fprintf(&b, "\t%s := f%s(a, b)\n\treturn \"ok \" + %s\n}\n", strings.Join(rs, ", "), c01Suffix(i), strings.Join(fs, " + \",\" + "))
 		}
 		fmt.Fprintf(&b, "func reset%d() {\n", i)
 		for _, g := range p.Globals {
-			fmt.Fprintf(&b, "\tzero(&%s)\n", strings.ReplaceAll(g, "§", fmt.Sprint(i)))
+			fmt.Fprintf(&b, "\tzero(&%s)\n", strings.ReplaceAll(g, "§", c01Suffix(i)))
 		}
 		b.WriteString("}\n")
 		fmt.Fprintf(&b, "func fin%d() string {\n\treturn \"\"", i)
@@ -278,7 +280,7 @@ func c01MainSource(progs []c01Prog, nres []int) string {
 			if k > 0 {
 				b.WriteString(" + \";\"")
 			}
-			fmt.Fprintf(&b, " + fmtr(%s)", strings.ReplaceAll(g, "§", fmt.Sprint(i)))
+			fmt.Fprintf(&b, " + fmtr(%s)", strings.ReplaceAll(g, "§", c01Suffix(i)))
 		}
 		b.WriteString("\n}\n")
 	}
@@ -394,13 +396,13 @@ func c01BuildIR(src string, mode ir.BuilderMode) (*c01Built, error) {
 
 // c01Observe runs f<i> on all inputs; it returns the observation strings, or unsupported != "".
 func c01Observe(in *irexec.Interp, pkg *ir.Package, i int, p c01Prog) (obs []string, unsupported string) {
-	fn := pkg.Func(fmt.Sprintf("f%d", i))
+	fn := pkg.Func("f"+c01Suffix(i))
 	if fn == nil {
 		return nil, "no function"
 	}
 	var globals []string
 	for _, g := range p.Globals {
-		globals = append(globals, strings.ReplaceAll(g, "§", fmt.Sprint(i)))
+		globals = append(globals, strings.ReplaceAll(g, "§", c01Suffix(i)))
 	}
 	for _, a := range c01Inputs {
 		for _, b := range c01Inputs {
@@ -498,7 +500,16 @@ type c01Stats struct {
 var c01Global c01Stats
 
 func c01Case(p c01Prog, mode string) map[string]any {
-	return map[string]any{"family": p.Family, "index": p.Index, "mode": mode}
+	return map[string]any{"family": p.Family, "index": p.Index, "desc": p.Desc, "mode": mode}
+}
+
+// c01Key is the violation key of (program, mode): L programs are identified by their index in
+// the named space, K programs by their description (stable when programs are added).
+func c01Key(p c01Prog, mode string) string {
+	if strings.HasPrefix(p.Family, "K") {
+		return p.Family + "/" + strings.NewReplacer(" ", "_", "\t", "_").Replace(p.Desc) + "/" + mode
+	}
+	return fmt.Sprintf("%s/%d/%s", p.Family, p.Index, mode)
 }
 
 // c01RunBatch checks one batch of programs. modes == nil means all modes.
@@ -522,7 +533,7 @@ func c01RunBatch(res *vx.Result, dir string, progs []c01Prog, modes []c01Mode, v
 	nres := make([]int, len(progs))
 	generic := false
 	for i, p := range progs {
-		obj, _ := tpkg.Scope().Lookup(fmt.Sprintf("f%d", i)).(*types.Func)
+		obj, _ := tpkg.Scope().Lookup("f"+c01Suffix(i)).(*types.Func)
 		if obj == nil {
 			res.Note("generator bug: %s/%d declares no f§", p.Family, p.Index)
 			res.NotExhaustive("generated program without entry point")
@@ -596,8 +607,8 @@ func c01RunBatch(res *vx.Result, dir string, progs []c01Prog, modes []c01Mode, v
 				msg = mr.err.Error()
 			}
 			if len(progs) == 1 {
-				res.Violate(fmt.Sprintf("%s/%d/%s/build", progs[0].Family, progs[0].Index, m.Name),
-					fmt.Sprintf("the IR builder failed (mode %s) on a type-correct program: %s\n%s", m.Name, msg, progs[0].Text("0")), c01Case(progs[0], m.Name))
+				res.Violate(c01Key(progs[0], m.Name)+"/build",
+					fmt.Sprintf("the IR builder failed (mode %s) on a type-correct program: %s\n%s", m.Name, msg, progs[0].Text(c01Suffix(0))), c01Case(progs[0], m.Name))
 			} else {
 				// re-run program by program to find which one breaks the builder
 				for _, p := range progs {
@@ -612,12 +623,12 @@ func c01RunBatch(res *vx.Result, dir string, progs []c01Prog, modes []c01Mode, v
 			}
 			res.Eval(int64(nin))
 			for k := range nin {
-				if mr.obs[i][k] != c.obs[i][k] {
+				if !c01SameObs(mr.obs[i][k], c.obs[i][k]) {
 					a, b := c01Inputs[k/len(c01Inputs)], c01Inputs[k%len(c01Inputs)]
-					fn := mr.built.pkg.Func(fmt.Sprintf("f%d", i))
+					fn := mr.built.pkg.Func("f"+c01Suffix(i))
 					msg := fmt.Sprintf("%s/%d mode=%s input a=%d b=%d: behaviour of the IR differs from the compiled program\n  compiled: %s\n  IR:       %s\n(format: outcome <tab> obs log <tab> final globals)\nsource:\n%s\nIR (%s):\n%s",
-						p.Family, p.Index, m.Name, a, b, c.obs[i][k], mr.obs[i][k], p.Text(fmt.Sprint(i)), m.Name, c01Tail2(c01Dump(fn), 6000))
-					res.Violate(fmt.Sprintf("%s/%d/%s", p.Family, p.Index, m.Name), msg, c01Case(p, m.Name))
+						p.Family, p.Index, m.Name, a, b, c.obs[i][k], mr.obs[i][k], p.Text(c01Suffix(i)), m.Name, c01Tail2(c01Dump(fn), 6000))
+					res.Violate(c01Key(p, m.Name), msg, c01Case(p, m.Name))
 					break
 				}
 			}
@@ -654,7 +665,7 @@ func c01RunBatch(res *vx.Result, dir string, progs []c01Prog, modes []c01Mode, v
 			}
 		}
 		if lifted != nil {
-			ft := c01Inspect(lifted.pkg.Func(fmt.Sprintf("f%d", i)))
+			ft := c01Inspect(lifted.pkg.Func("f"+c01Suffix(i)))
 			add := func(c *int64, b bool) {
 				if b {
 					atomic.AddInt64(c, 1)
@@ -671,11 +682,11 @@ func c01RunBatch(res *vx.Result, dir string, progs []c01Prog, modes []c01Mode, v
 				atomic.AddInt64(&c01Global.nontrivial, 1)
 			}
 			if ft.split {
-				res.Sample(map[string]any{"family": p.Family, "index": p.Index, "desc": p.Desc, "why": "lifting creates a split alloc", "source": p.Text("0"), "compiled_observations_first4": c.obs[i][:4]})
+				res.Sample(map[string]any{"family": p.Family, "index": p.Index, "desc": p.Desc, "why": "lifting creates a split alloc", "source": p.Text(c01Suffix(0)), "compiled_observations_first4": c.obs[i][:4]})
 			}
 		}
 		if verbose {
-			fmt.Printf("---- %s/%d (%s)\n%s\n", p.Family, p.Index, p.Desc, p.Text(fmt.Sprint(i)))
+			fmt.Printf("---- %s/%d (%s)\n%s\n", p.Family, p.Index, p.Desc, p.Text(c01Suffix(i)))
 			for k, o := range c.obs[i] {
 				fmt.Printf("  a=%d b=%d compiled: %q\n", c01Inputs[k/len(c01Inputs)], c01Inputs[k%len(c01Inputs)], o)
 				for mi, m := range modes {
@@ -686,11 +697,27 @@ func c01RunBatch(res *vx.Result, dir string, progs []c01Prog, modes []c01Mode, v
 			}
 			for mi, m := range modes {
 				if mres[mi].built != nil {
-					fmt.Printf("---- IR mode %s\n%s\n", m.Name, c01Dump(mres[mi].built.pkg.Func(fmt.Sprintf("f%d", i))))
+					fmt.Printf("---- IR mode %s\n%s\n", m.Name, c01Dump(mres[mi].built.pkg.Func("f"+c01Suffix(i))))
 				}
 			}
 		}
 	}
+}
+
+// c01SameObs compares an observation of the IR with one of the compiled program. The only
+// tolerance: irexec's class "nil-or-assert" (failed TypeAssert of a nil interface to an
+// interface type, which the IR uses both for x.(I) and for the nil check of an interface
+// method value) matches the compiled classes "nil" and "assert".
+func c01SameObs(irObs, compiled string) bool {
+	if irObs == compiled {
+		return true
+	}
+	const amb = "panic runtime:nil-or-assert\t"
+	if strings.HasPrefix(irObs, amb) {
+		rest := irObs[len(amb):]
+		return compiled == "panic runtime:nil\t"+rest || compiled == "panic runtime:assert\t"+rest
+	}
+	return false
 }
 
 func c01Tail2(s string, n int) string {
@@ -718,7 +745,7 @@ func c01Spaces() (c01LSpace, int) {
 	return c01LSpaces["Lq"], 1
 }
 
-func c01FindProg(family string, index int) (c01Prog, bool) {
+func c01FindProg(family string, index int, desc string) (c01Prog, bool) {
 	var found c01Prog
 	ok := false
 	if sp, isL := c01LSpaces[family]; isL {
@@ -731,9 +758,11 @@ func c01FindProg(family string, index int) (c01Prog, bool) {
 		})
 		return found, ok
 	}
-	for _, p := range c01EnumerateK(2) {
-		if p.Family == family && p.Index == index {
-			return p, true
+	for level := 1; level <= 2; level++ {
+		for _, p := range c01EnumerateK(level) {
+			if p.Family == family && (desc != "" && p.Desc == desc || desc == "" && p.Index == index) {
+				return p, true
+			}
 		}
 	}
 	return found, false
@@ -749,12 +778,13 @@ func TestVerifC01(t *testing.T) {
 		var c struct {
 			Family string `json:"family"`
 			Index  int    `json:"index"`
+			Desc   string `json:"desc"`
 			Mode   string `json:"mode"`
 		}
 		if err := json.Unmarshal(raw, &c); err != nil {
 			t.Fatal(err)
 		}
-		p, found := c01FindProg(c.Family, c.Index)
+		p, found := c01FindProg(c.Family, c.Index, c.Desc)
 		if !found {
 			res.Note("replay: no program %s/%d in this tier's space (try --tier thorough)", c.Family, c.Index)
 			res.NotExhaustive("replay case not found")
@@ -778,17 +808,29 @@ func TestVerifC01(t *testing.T) {
 	go func() {
 		defer close(batches)
 		k := c01EnumerateK(kLevel)
-		// K programs are grouped by sub-family so that generic programs share batches
-		sort.SliceStable(k, func(i, j int) bool { return k[i].Family < k[j].Family })
+		if f := os.Getenv("C01_FAMILY"); f != "" { // debugging aid
+			var kk []c01Prog
+			for _, p := range k {
+				if strings.HasPrefix(p.Family, f) {
+					kk = append(kk, p)
+				}
+			}
+			k = kk
+		}
+		// generic programs (which get two extra builder modes) form their own batches
+		sort.SliceStable(k, func(i, j int) bool { return !k[i].Generic && k[j].Generic })
 		for i := 0; i < len(k); {
 			j := i
-			for j < len(k) && k[j].Family == k[i].Family && j-i < batchSize {
+			for j < len(k) && k[j].Generic == k[i].Generic && j-i < batchSize {
 				j++
 			}
 			batches <- k[i:j]
 			i = j
 		}
 		var cur []c01Prog
+		if f := os.Getenv("C01_FAMILY"); f != "" && !strings.HasPrefix(sp.Name, f) {
+			return
+		}
 		c01EnumerateL(sp, func(p c01Prog) bool {
 			cur = append(cur, p)
 			if len(cur) == batchSize {
